@@ -202,6 +202,15 @@ func RunOne(t *testing.T, h Harness, prop, tier string, sc any, cfg simrt.Config
 			if rph, ok := h.(interface{ RaceProperty(string) string }); ok {
 				rp = rph.RaceProperty(prop)
 			}
+			if rp == "" {
+				// no listed property states race freedom for this component:
+				// recorded as an observation
+				res.Probes["observation:race:"+rr.sig]++
+				if xx != nil {
+					xx.Probes["observation:race:"+rr.sig]++
+				}
+				continue
+			}
 			v := Violation{Sig: rp + "/race/" + rr.sig, Detail: rr.text}
 			if xx != nil {
 				xx.Viol = append(xx.Viol, v)
